@@ -191,9 +191,10 @@ def origin_of(F, body, l, path, outs, depth=0):
     for d in body.defs().get(l, []):
         if d.kind == 'call' and d.call.is_(r'^std::iter::Iterator::next$') and depth < 4:
             src = chain_source(F, body, d.call.args[0])
+            sfx = chain_suffix()
             if src is not None:
                 o, rest = origin_of(F, body, src[0], src[1], outs, depth + 1)
-                inner = o + ''.join('.' + x for x in rest)
+                inner = o + ''.join('.' + x for x in rest) + sfx
                 p2 = tuple(x for x in path if x not in ('@Some',))
                 if p2 and p2[0] == '0' and path[:2] == ('@Some', '0'):
                     p2 = p2[1:]
@@ -205,9 +206,21 @@ def origin_of(F, body, l, path, outs, depth=0):
     return 'local:%s' % (nm or '_%d' % l), path
 
 
+CHAIN_FLAGS = [set()]
+
+
+def chain_suffix():
+    """'~rev' / '~partial' when the last chain walked by chain_source does not visit the collection in its own order / entirely."""
+    fl = CHAIN_FLAGS[0]
+    return ''.join('~' + x for x in sorted(fl))
+
+
 def chain_source(F, body, op, depth=0):
     """Walk an iterator value back through adaptors to the collection it iterates:
-    (local, path) of that collection, or None."""
+    (local, path) of that collection, or None.  Records in CHAIN_FLAGS whether an adaptor on the way reverses the order
+    (`rev`, an odd number of times) or drops elements (skip / take / step_by / filter ...)."""
+    if depth == 0:
+        CHAIN_FLAGS[0] = set()
     if depth > 10 or not is_place(op):
         return None
     l, path, _s, _d = base_of(body, op)
@@ -224,6 +237,11 @@ def chain_source(F, body, op, depth=0):
             # crate-local iter(): the receiver is the collection
             l2, p2, _s, _d = base_of(body, c.args[0])
             return (l2, p2)
+        if c.is_(r'^std::iter::Iterator::rev$'):
+            CHAIN_FLAGS[0] ^= {'rev'}
+        return chain_source(F, body, c.args[0], depth + 1)
+    if c.is_(r'^std::iter::Iterator::(skip|take|step_by|filter|filter_map|skip_while|take_while|map_while|chain|cycle|flat_map|flatten)$') and c.args:
+        CHAIN_FLAGS[0] |= {'partial'}
         return chain_source(F, body, c.args[0], depth + 1)
     return (l, path)
 
@@ -396,9 +414,10 @@ def _transcripts_local(F, root):
                     if cc.is_(r'^std::iter::Iterator::'):
                         u.kind = 'iter'
                         src, elem = iter_source(F, pb, cc)
+                        sfx = chain_suffix()
                         if isinstance(src, tuple):
                             org, rest = origin_of(F, pb, src[0], src[1], outs)
-                            u.origin = org + (''.join('.' + x for x in rest) if rest else '')
+                            u.origin = org + (''.join('.' + x for x in rest) if rest else '') + sfx
                         else:
                             u.origin = src
                         # projection of the element used
